@@ -1675,7 +1675,7 @@ func equalType(r *rand.Rand, t sx.Sexp) sx.Sexp {
 		return sx.T("tup", append([]sx.Sexp{sx.L(ts...)}, a[1:]...)...)
 	case "arr":
 		return sx.T("arr", equalType(r, a[0]), a[1], a[2])
-	case "opt", "typ", "notundef", "sensitive", "iterable", "iterator":
+	case "opt", "typ", "notundef", "sensitive", "iterable", "iterator", "init":
 		return sx.T(t.Tag(), equalType(r, a[0]))
 	case "hash":
 		return sx.T("hash", equalType(r, a[0]), equalType(r, a[1]), a[2], a[3])
